@@ -368,6 +368,29 @@ impl<'a> Trainer<'a> {
         self.tag_trainer.add_example(sentence);
     }
 
+    /// Verification hook: the stored training examples with every feature id decoded back to its
+    /// description, as `(sorted [(feature description, count)], label)` in insertion order.
+    #[cfg(feature = "verif-hooks")]
+    pub fn verif_examples(&self) -> Vec<(Vec<(alloc::string::String, f64)>, f64)> {
+        let names: HashMap<u32, alloc::string::String> = self
+            .feature_ids
+            .iter()
+            .map(|(f, &id)| (id, f.verif_describe()))
+            .collect();
+        self.xs
+            .iter()
+            .zip(&self.ys)
+            .map(|(x, &y)| {
+                let mut fs: Vec<(alloc::string::String, f64)> = x
+                    .iter()
+                    .map(|(id, v)| (names.get(id).cloned().unwrap_or_default(), *v))
+                    .collect();
+                fs.sort_by(|a, b| a.0.cmp(&b.0));
+                (fs, y)
+            })
+            .collect()
+    }
+
     /// Trains word boundaries and tags.
     ///
     /// # Arguments
